@@ -467,12 +467,24 @@ mut("C10", "swap-dollar-arms", "R10-3", "$? and $$ swapped",
     (S, '        if key == "?" {', '        if key == "$" {'),
     (S, '        } else if key == "$" {', '        } else if key == "?" {'))
 mut("C10", "single-quote-expands", "R10-2", "variables expand inside single quotes",
-    (S, '''        if sep == "`" || sep == "'" {
+    (S, '''        if sep == "`" || sep == "'" || sep == "\\\\" {
             idx += 1;
             continue;
         }
 
-        if !env_in_token(token) {''', '''        if sep == "`" {
+        if !env_in_token(token) {''', '''        if sep == "`" || sep == "\\\\" {
+            idx += 1;
+            continue;
+        }
+
+        if !env_in_token(token) {'''))
+mut("C01", "escaped-dollar-expands", "expand_env", "a backslash-escaped leading $ expands again",
+    (S, '''        if sep == "`" || sep == "'" || sep == "\\\\" {
+            idx += 1;
+            continue;
+        }
+
+        if !env_in_token(token) {''', '''        if sep == "`" || sep == "'" {
             idx += 1;
             continue;
         }
